@@ -1,3 +1,4 @@
+import GoRedisModel.Proofs.Translated
 import GoRedisModel.Proofs.Spec
 import GoRedisModel.Proofs.Dispatch
 /-! # C12 — commands the framework implements itself follow Redis semantics
@@ -500,5 +501,39 @@ theorem C12_hexists_hstrlen (pf : FloatOracle) (srv : SrvSt) (conn : ConnSt) (hh
 theorem C12_substr_is_getrange (pf : FloatOracle) (srv : SrvSt) (conn : ConnSt) (args : List Msg) :
     ∃ ex, nested1 pf srv conn b!"SUBSTR" = some ex ∧ ex args = nestedCall pf srv conn b!"GETRANGE" args .ret := by
   exact ⟨fun args => nestedCall pf srv conn b!"GETRANGE" args .ret, by simp [nested1], rfl⟩
+
+/-! ## The code as translated from the current source (regenerated on every run)
+
+`Generated/Translated.lean` is written by `bin/extract` from `redis/sugar_commander.go`: the statements of the GETRANGE
+executor from `strLen := len(getVal)` on, the addition and overflow test of `incdecExecutor`, the guard of DECRBY –
+statement for statement, with Go's wrapping `int` arithmetic and panicking slice expressions.  The theorems say that this
+code computes what the model's executors (`getRange`, `incDec`, `execIncDecBy`) compute, for every value and all 64-bit
+arguments; the `C12_getrange_*`, `C12_incr_*` theorems above are therefore statements about the source as it is now. -/
+
+/-- GETRANGE: the source's index arithmetic and slice expression return Redis' range, never panic, for every value and
+all 64-bit indexes -/
+theorem C12_source_getrange (v : Bytes) (s e : Int) (hl : (v.length : Int) ≤ 9223372036854775807)
+    (hs : inInt64 s = true) (he : inInt64 e = true) :
+    Translated.getrangeWindow v s e = .ok (getRange v s e) := Translated.getrange_eq v s e hl hs he
+
+/-- INCR / DECR / INCRBY / DECRBY: the source detects overflow by looking at the wrapped sum; that test is exact – the new
+value is stored iff the mathematical sum is a 64-bit integer -/
+theorem C12_source_counter_overflow (c d : Int) (hc : inInt64 c = true) (hd : inInt64 d = true) :
+    Translated.incdecNewValue c d =
+      if inInt64 (c + d) = true then .ok (c + d) else .err "increment or decrement would overflow" :=
+  Translated.incdec_eq c d hc hd
+
+/-- DECRBY: the one decrement that cannot be negated is refused, every other one is negated exactly -/
+theorem C12_source_decrby_guard (d : Int) (hd : inInt64 d = true) :
+    Translated.decrbyGuard d = if d = -9223372036854775808 then .err "decrement would overflow" else .ok (-d) :=
+  Translated.decrby_eq d hd
+
+/-- non-vacuity: border values through the translated code -/
+example : Translated.incdecNewValue 9223372036854775807 1 = .err "increment or decrement would overflow" ∧
+    Translated.incdecNewValue (-9223372036854775808) (-1) = .err "increment or decrement would overflow" ∧
+    Translated.incdecNewValue 9223372036854775806 1 = .ok 9223372036854775807 ∧
+    Translated.getrangeWindow b!"hello" 0 (-6) = .ok b!"h" ∧
+    Translated.getrangeWindow b!"hello" (-9223372036854775808) 9223372036854775807 = .ok b!"hello" ∧
+    Translated.getrangeWindow b!"" 0 0 = .ok b!"" := by decide +kernel
 
 end GoRedis
